@@ -252,12 +252,30 @@ def neg_error(rv, e, f):
 
 
 def null_or_neg(rv, e, f):
+    """negative status, or a null pointer returned right after errno was set (the repo's refusal idiom for pointer results)"""
     T = f.T(e.get("t")) if isinstance(e, dict) else {}
     if T.get("k") == "ptr":
-        return rv.lo == 0 and rv.hi == 0
-    if T.get("k") == "bool":
-        return rv.lo == 0 and rv.hi == 0
-    return rv.hi < 0
+        if not (rv.lo == 0 and rv.hi == 0):
+            return False
+        return errno_set_before(f, e)
+    if T.get("k") in ("int", "enum"):
+        return rv.hi < 0
+    return False
+
+
+def errno_set_before(f, e):
+    """the block holding return-value expression e (or its straight-line predecessor) assigns errno"""
+    for bid, b in f.blocks.items():
+        if any(x is e or x.get("e") is e for x in b.el):
+            blocks = [b]
+            if len(b.preds) == 1 and not b.el[:-2]:
+                blocks.append(f.blocks[b.preds[0]])
+            for bb in blocks:
+                for x in bb.el:
+                    for n in walk(x):
+                        if n.get("k") == "bin" and n.get("op") == "=" and any(c.get("k") == "call" and callee_name(c) == "__errno_location" for c in walk(n["a"])):
+                            return True
+    return False
 
 
 def run_layout(prog, ctx=None):
@@ -267,4 +285,32 @@ def run_layout(prog, ctx=None):
         if f is None:
             raise Broken("anchor missing: mpt_%s_set" % kind)
         check_function(prog, res, f, [f.params[0]["id"]], neg_error)
+    return res
+
+
+def run_objects(prog, ctx=None):
+    """ERRFX over every function in ctx['files'] that takes a pointer to one of ctx['records'] (or is a method of such a class)"""
+    res = Result("ERRFX")
+    files = set(ctx["files"])
+    recs = tuple(ctx["records"])
+    n = 0
+    for f in sorted(prog.functions.values(), key=lambda f: (f.file, f.line)):
+        if f.nocfg or f.file not in files:
+            continue
+        ps = []
+        for q in f.params:
+            pt = f.pointee(q["t"])
+            if pt is None:
+                continue
+            PT = f.T(pt)
+            if PT.get("k") == "record" and PT.get("name", "").split("::")[-1].replace("struct ", "") in recs and not PT.get("const"):
+                ps.append(q["id"])
+        if f.d.get("method") and f.d.get("cls", "").split("::")[-1] in recs and not f.d.get("const"):
+            ps.append(0)
+        if not ps:
+            continue
+        n += 1
+        check_function(prog, res, f, ps, null_or_neg)
+    if n < ctx.get("min_functions", 1):
+        raise Broken("ERRFX: only %d functions over %s found" % (n, recs))
     return res
